@@ -156,6 +156,46 @@ fn body_start(input: &str) -> usize {
     0
 }
 
+/// T3 inside the value of an old-style `>>` entry: the stored text keeps its inner blanks (so the map is not compared), but
+/// what the standard accessors read from it (minutes, servings, tags, locale, author; texts up to inner white space) and
+/// the warnings stay the same.
+pub fn meta_t3(ctx: &mut Ctx, ps: &mut Parsers) {
+    let ext = cooklang::Extensions::all().bits();
+    for value in ["time: 1 hour 30 min", "prep time: 1 h 5 min 30 s", "cook time: 2 hours 45 minutes", "duration: 90 min", "servings: 2 | 4 | 8", "serves: 4 people", "tags: quick, vegan, one pot", "locale: en_GB", "author: Rachel <https://rachel.url>", "time: 1h30m"] {
+        let base_text = format!(">> {value}\n\nMix @flour{{200%g}}.\n");
+        let gaps: Vec<usize> = value.char_indices().filter(|(i, c)| *c == ' ' && *i > value.find(':').unwrap_or(0)).map(|(i, _)| i + 3).collect();
+        for conv in ["bundled", "empty"] {
+            let parser = ps.parser(ext, conv).clone();
+            let read = |text: &str| {
+                crate::core::guarded(|| {
+                    let r = parser.parse(text);
+                    let warnings = r.report().warnings().filter(|w| !w.message.contains("deprecated")).count();
+                    r.output().map(|o| (o.metadata.time(parser.converter()).map(|t| t.total()), o.metadata.servings(), o.servings().map(|s| s.to_vec()), o.metadata.tags().map(|t| t.iter().map(|x| x.split_whitespace().collect::<Vec<_>>().join(" ")).collect::<Vec<_>>()), o.metadata.locale().map(|l| format!("{l:?}")), o.metadata.author().map(|a| format!("{:?} {:?}", a.name().map(|n| n.split_whitespace().collect::<Vec<_>>().join(" ")), a.url())), warnings, r.is_valid()))
+                })
+            };
+            let Ok(base) = read(&base_text) else { continue };
+            for g in &gaps {
+                for comment in ["[- c -]", " [- plus cooling -]", "[- é -] "] {
+                    let t = format!("{}{comment}{}", &base_text[..*g], &base_text[*g..]);
+                    let case = Case::new("T3_block_comment", t.as_str(), ext, conv).with(json!({"original": base_text, "transformation": "T3_block_comment", "detail": "in_metadata_value"}));
+                    ctx.begin(&case);
+                    match read(&t) {
+                        Err(p) => ctx.violation(&case, "T3_block_comment", "panic_after_transformation|in_metadata_value", format!("{} at {}", p.message, p.location)),
+                        Ok(got) => {
+                            if got != base {
+                                ctx.violation(&case, "T3_block_comment", "accessors_changed|in_metadata_value", format!("what the accessors read changed: {base:?} -> {got:?}"));
+                            } else {
+                                ctx.count("T3_in_metadata_value_ok");
+                                ctx.nontrivial(&case);
+                            }
+                        }
+                    }
+                }
+            }
+        }
+    }
+}
+
 /// T1 on any input without backslash or CR
 pub fn t1(ctx: &mut Ctx, ps: &mut Parsers, input: &str, ext: u32, conv: &str) {
     if input.contains('\\') || input.contains('\r') || !input.contains('\n') {
@@ -346,6 +386,9 @@ pub fn t234(ctx: &mut Ctx, ps: &mut Parsers, input: &str, ext: u32, conv: &str, 
 pub fn run(ctx: &mut Ctx) {
     let mut ps = Parsers::new();
     let all = Extensions::all().bits();
+    if ctx.shard == 0 {
+        meta_t3(ctx, &mut ps);
+    }
     // T1 over fuzz inputs: exhaustive short strings with newlines + random
     let maxlen = if ctx.is_thorough() { 4 } else { 3 };
     let total = alphabet::count_upto(SMALL.len(), maxlen);
